@@ -295,6 +295,19 @@ def scripts(rnd, env):
                 Assign(V('r4'), I(0)),
                 If(Bin('<', Field(V('a'), 'N'), ocall(V('a'), 'sop', k=I(rnd.randint(0, 9)))), [Assign(V('r4'), I(1))]),
                 Ret(Bin('+', Bin('+', Bin('*', V('r1'), I(10000)), Bin('*', V('r2'), I(100))), Bin('+', Bin('*', V('r3'), I(10)), V('r4'))))])
+    # an operation with an effect inside a where clause: candidates are tried in order, a selection of one instance stops
+    # at the first that satisfies the clause, a selection of many tries them all; what the operation did stays done
+    ns = sorted(rnd.sample(range(1, 9), 3))
+    thr = rnd.choice([ns[0], ns[1], ns[1] + 1, 9])
+    probe = lambda: Bin('>', ocall({'t': 'selected'}, 'iop', k=I(1)), I(thr))
+    # (the scripts of one environment share one model: the selection ranges over the instances earlier scripts left, too)
+    tot = [Assign(V('t'), Bin('+', Bin('+', Bin('*', Field(V('a1'), 'N'), I(100)), Bin('*', Field(V('a2'), 'N'), I(10))), Field(V('a3'), 'N')))]
+    out.append([Create('a1', 'A'), Assign(Field(V('a1'), 'N'), I(ns[0])), Create('a2', 'A'), Assign(Field(V('a2'), 'N'), I(ns[1])),
+                Create('a3', 'A'), Assign(Field(V('a3'), 'N'), I(ns[2])),
+                SelectFrom('any', 'hit', 'A', probe())] + tot + [Ret(V('t'))])
+    out.append([Create('a1', 'A'), Assign(Field(V('a1'), 'N'), I(ns[0])), Create('a2', 'A'), Assign(Field(V('a2'), 'N'), I(ns[1])),
+                Create('a3', 'A'), Assign(Field(V('a3'), 'N'), I(ns[2])),
+                SelectFrom('many', 'hits', 'A', probe())] + tot + [Ret(Bin('+', Bin('*', V('t'), I(100)), Un('cardinality', V('hits'))))])
     out += random_scripts(rnd, env)
     return out
 
